@@ -125,10 +125,21 @@ Theorem C01_from_keys_once : forall T vs v, In v (from_variants T vs) ->
   In v vs /\ exists k, from_key v = Some k /\ key_count k vs = 1%nat.
 Proof. exact from_variants_key_once. Qed.
 
-Theorem C01_from_tuple1_sound : forall T, from_tuple1_ok T = true ->
+(* `From<(T,)>` of a one-element tuple variant.  Since fix d9b019c (= patches/C01-1.diff) the body's
+   arguments are the declared fields for every arity: the conjunct holds for EVERY space.  With
+   the pre-fix body it held only without such variants (finding C01-6, now a regression case). *)
+Theorem C01_from_tuple1_fixed : forall T, from_tuple1_ok T = true.
+Proof. exact from_tuple1_fixed. Qed.
+
+Theorem C01_from_tuple1_prefix_sound : forall T, from_tuple1_ok_cfg false T = true ->
   forall n df tag vs deny bes, In (DEnum n df tag vs deny bes) (named_dets T) ->
   forall v t, In v (from_variants T vs) -> v_det v <> VTuple [t].
-Proof. exact from_tuple1_sound. Qed.
+Proof. exact from_tuple1_prefix_sound. Qed.
+
+Theorem C01_from_tuple1_regression :
+  from_tuple1_ok_cfg false (witness CFromTuple1) = false /\
+  wf_module Sanitize.ascii_classes (witness CFromTuple1) = true.
+Proof. exact from_tuple1_regression. Qed.
 
 Theorem C01_deref_acyclic_sound : forall T, deref_acyclic T = true ->
   forall n, ~ CyclesProofs.cyclic (deref_graph T) n.
@@ -157,6 +168,12 @@ Theorem C01_defaults_ok_sound : forall T, defaults_ok T = true ->
   exists e, Value.render_prop_default T (fuel_of T) (p_ty p) v = Defaults.ROk (Some e) /\
             Value.expr_typed T (fuel_of T) e (p_ty p) = true.
 Proof. exact defaults_ok_sound. Qed.
+
+(* the default of a one-element tuple variant is rendered `E::V(x)` for `V((T,))` (finding C01-16) *)
+Theorem C01_default_tuple1_sound : forall T, default_tuple1_ok T = true ->
+  forall d, In d (named_dets T) -> forall e, In e (rendered_defaults T d) ->
+  Value.expr_any (tuple1_variant_expr T) e = false.
+Proof. exact default_tuple1_sound. Qed.
 
 (* ---- (f) no infinitely sized types ---- *)
 (* from C07: after break_cycles no node reachable from the new ids lies on a by-value cycle of the
@@ -209,8 +226,8 @@ Theorem C01_prelude_clean_sound : forall T,
      forall d, In d (named_dets T) -> mentions_result_det T d = false).
 Proof. exact prelude_sound. Qed.
 
-(* ---- the recorded classes are inside the model: every conjunct has a failing space ---- *)
-Theorem C01_known_classes_fail : forall c, holds Sanitize.ascii_classes (witness c) c = false.
+(* ---- the recorded classes are inside the model: every conjunct that can fail has a failing space ---- *)
+Theorem C01_known_classes_fail : forall c, c <> CFromTuple1 -> holds Sanitize.ascii_classes (witness c) c = false.
 Proof. exact known_classes_fail. Qed.
 
 (* ---- non-vacuity ---- *)
@@ -230,6 +247,6 @@ Example C01_ex_reports :
   wf_report Sanitize.ascii_classes (witness CItems) = [CItems] /\
   wf_report Sanitize.ascii_classes (witness CDerefCycle) = [CDerefCycle] /\
   wf_report Sanitize.ascii_classes (witness CAcyclic) = [CAcyclic] /\
-  wf_report Sanitize.ascii_classes (witness CFromTuple1) = [CFromTuple1] /\
+  wf_report Sanitize.ascii_classes (witness CFromTuple1) = [] /\
   wf_report Sanitize.ascii_classes (witness CPreludeVec) = [CPreludeVec].
 Proof. repeat split; vm_compute; reflexivity. Qed.
